@@ -1208,6 +1208,15 @@ func (x *Exec) pvcHelper(s *State, fr *Frame, name string, args []Value, call *a
 			return &Scalar{T: x.ctx.Share(And(Eq(a.Rgn, b.Rgn), Eq(a.Off, b.Off), Eq(a.Len, b.Len)))}
 		}
 		unsup("pvc_same on %T", args[0])
+	case "pvc_samebase":
+		// the two slices start at the same address (same allocation, same offset) and have
+		// the same capacity: one is a re-slicing of the other from its first element
+		a, ok1 := args[0].(*SliceV)
+		b, ok2 := args[1].(*SliceV)
+		if !ok1 || !ok2 {
+			unsup("pvc_samebase on non-slices")
+		}
+		return &Scalar{T: x.ctx.Share(And(Eq(a.Rgn, b.Rgn), Eq(a.Off, b.Off), Eq(a.Cap, b.Cap)))}
 	case "pvc_overlap":
 		// the two slices may share memory (same region, both with capacity)
 		a, ok1 := args[0].(*SliceV)
